@@ -75,7 +75,7 @@ impl Property for C18 {
             2 => (0usize..crate::spell::vocab::PUNCT.len()).prop_map(|i| crate::spell::vocab::PUNCT[i].to_string()),
             1 => (num_strategy(100_000), choices()).prop_map(|(n, ch)| crate::spell::cardinal("en", n, &mut crate::choose::Bytes::new(&ch)).join(" ")),
         ];
-        let built = (proptest::collection::vec((item, sp(), 0u8..8), 1..9), threshold_strategy()).prop_map(|(items, th_bits)| {
+        let built = (proptest::collection::vec((item, sp(), 0u8..10), 1..9), threshold_strategy()).prop_map(|(items, th_bits)| {
             let mut s = String::new();
             for (w, j, glue) in items {
                 let is_punct = !w.chars().any(|c| c.is_alphanumeric());
@@ -86,7 +86,7 @@ impl Property for C18 {
                     }
                 }
                 s.push_str(&w);
-                s.push_str(if glue == 7 { "" } else { j });
+                s.push_str(if glue == 7 { "" } else if glue == 6 && !is_punct { "-" } else { j });
             }
             Case { text: s, th_bits }
         });
